@@ -224,6 +224,14 @@ def smf_sweep(samples):
     yield smf_file([b""]) ; yield smf_file([]) ; yield smf_file([base[0]], ntracks=2) + b"XXXX\x00\x00\x00\x02ab"
 
 
+SMF_TEMPO = b"\x00\xff\x51\x03\x07\xa1\x20"
+SMF_NOTE = b"\x10\x90\x40\x40" + b"\x10\x40\x00"
+SMF_SEEDS = [smf_file([SMF_TEMPO + SMF_NOTE * 5 + b"\x00\xff\x2f\x00"], fmt=0),
+             smf_file([SMF_TEMPO + b"\x60\xff\x51\x03\x03\xd0\x90" + b"\x00\xff\x2f\x00", b"\x05\xc0\x01" + SMF_NOTE * 8 + b"\x00\xf0\x02\x01\xf7" + b"\x81\x00\xd0\x05" + b"\x00\xff\x2f\x00",
+                       SMF_NOTE * 3 + b"\x00\xff\x03\x04name" + SMF_NOTE], fmt=1),
+             smf_file([SMF_NOTE * 40], fmt=0, tickdiv=480)]
+
+
 # ------------------------------------------------------------------------------------------- VComment
 def vc_impl(f):
     from mutagen._vorbis import VComment
@@ -322,6 +330,64 @@ def ogv_sweep(samples):
         yield (junk * k)[:-3]
 
 
+def ogo_impl(f):
+    from mutagen.oggopus import OggOpusInfo
+    return OggOpusInfo(f)
+
+
+def ogo_canon(i, data):
+    return (i.channels, i._OggOpusInfo__pre_skip, i.serial)
+
+
+def ogs_impl(f):
+    from mutagen.oggspeex import OggSpeexInfo
+    return OggSpeexInfo(f)
+
+
+def ogs_canon(i, data):
+    return (i.sample_rate, i.channels, i.bitrate, i.serial)
+
+
+def ogt_impl(f):
+    from mutagen.oggtheora import OggTheoraInfo
+    return OggTheoraInfo(f)
+
+
+def ogt_canon(i, data):
+    return (fh(i.fps), i.bitrate, i.granule_shift, i.serial)
+
+
+def ogt_expect(l, data):
+    num, den, bitrate, gs, serial = l
+    return (fh(num / float(den)), bitrate, gs, serial)
+
+
+def ogg_codec_sweep(sample_name, idpackets):
+    def sweep(samples):
+        s = samples[sample_name]
+        yield from field_sweep(s[:220], range(0, 100, 1), widths=(1, 4))
+        yield from truncations(s)
+        junk = ogg_page([4], b"abcd", 0, serial=9)
+        for idp in idpackets:
+            for cut in range(0, len(idp) + 1):
+                pk = idp[:cut]
+                if len(pk) < 255:
+                    yield ogg_page([len(pk)], pk, 2)
+            for flags in (0, 1, 2, 4, 255):
+                yield ogg_page([len(idp)], idp, flags)
+                yield junk + ogg_page([], b"", 2) + ogg_page([len(idp)], idp, flags)
+            yield junk * 5
+            yield junk * 5 + ogg_page([len(idp)], idp, 2)[:-2]
+    return sweep
+
+
+OPUS_ID = [b"OpusHead" + struct.pack("<BBHIhB", v, 2, 312, 48000, 0, 0) for v in (1, 0, 15, 16, 255)]
+SPEEX_ID = [b"Speex   " + b"1.2rc1".ljust(20, b"\0") + struct.pack("<IIIIIIiIIIIII", 1, 80, rate, 1, 4, ch, br, 320, 0, 1, 0, 0, 0)
+            for rate, ch, br in ((44100, 2, -1), (0, 1, 5), (8000, 0, 2 ** 31 - 1), (1, 2 ** 32 - 1, -2 ** 31))]
+THEORA_ID = [b"\x80theora" + bytes([vm, vn, 1]) + b"\0" * 12 + struct.pack(">II", fn, fd) + b"\0" * 7 + bytes([1, 2, 3]) + struct.pack(">H", gs) + b"\0"
+             for vm, vn, fn, fd, gs in ((3, 2, 30000, 1001, 0xC0), (3, 1, 1, 1, 0), (3, 2, 0, 1, 0), (3, 2, 1, 0, 0xFFFF), (2, 2, 1, 1, 0), (3, 2, 2 ** 32 - 1, 1, 0x3E0))]
+
+
 # ------------------------------------------------------------------------------------------- APEv2
 def ape_impl(f):
     from mutagen.apev2 import _APEv2Data
@@ -383,6 +449,148 @@ def ape_sweep(samples):
         yield (b"APETAGEX" + struct.pack("<IIII", 2000, 40, 0, 0xA0000000) + b"\0" * 8 + b"\0" * 8 + b"APETAGEX" + b"\0" * 24)[:k]
 
 
+# ------------------------------------------------------------------------------------------- MP4 atoms
+def mp4_impl(f):
+    from mutagen.mp4._atom import Atoms
+    return Atoms(f)
+
+
+def mp4_canon(atoms, data):
+    out = []
+
+    def walk(a, level):
+        out.extend([level, a.offset, a.length, int.from_bytes(a.name, "big"), a._dataoffset])
+        for c in (a.children or []):
+            walk(c, level + 1)
+    for a in atoms.atoms:
+        walk(a, 0)
+    return tuple(out)
+
+
+def mp4_expect(l, data):
+    return tuple(l)
+
+
+def mp4_atom(name, body=b"", length=None, ext=None):
+    if ext is not None:
+        return struct.pack(">I", 1) + name + struct.pack(">Q", ext) + body
+    return struct.pack(">I", len(body) + 8 if length is None else length) + name + body
+
+
+def mp4_sweep(samples):
+    for name in ("has-tags.m4a", "64bit.mp4", "truncated-64bit.mp4", "no-tags.m4a"):
+        s = samples[name][:3000]
+        yield from field_sweep(s, range(0, 64), widths=(1, 4))
+        yield from truncations(s)
+    ftyp = mp4_atom(b"ftyp", b"M4A \0\0\0\0")
+    leaf = mp4_atom(b"free", b"abcd")
+    for cname in (b"moov", b"meta", b"udta", b"ilst", b"traf", b"xxxx"):
+        for length in (None, 0, 1, 2, 7, 8, 9, 12, 15, 16, 17, 20, 100, 2 ** 31, 2 ** 32 - 1):
+            for kids in (b"", leaf, leaf * 2, mp4_atom(b"moov", leaf), b"\0\0\0"):
+                body = (b"\0\0\0\0" if cname == b"meta" else b"") + kids
+                yield ftyp + mp4_atom(cname, body, length) + leaf
+                yield ftyp + mp4_atom(b"moov", mp4_atom(cname, body, length))
+        for ext in (0, 1, 15, 16, 17, 24, 100, 2 ** 32, 2 ** 62, 2 ** 63 - 17, 2 ** 63 - 1, 2 ** 63, 2 ** 64 - 1):
+            yield ftyp + mp4_atom(cname, leaf, ext=ext) + leaf
+            yield ftyp + mp4_atom(b"moov", mp4_atom(cname, leaf, ext=ext) + leaf)
+    # nesting depth around the limit (level > 64)
+    for depth in (1, 2, 10, 63, 64, 65, 66, 67, 100, 300, 1200):
+        d = leaf
+        for _ in range(depth):
+            d = mp4_atom(b"moov", d)
+        yield ftyp + d
+        yield ftyp + b"\0\x0f\xff\xffmoov" * depth
+        yield ftyp + b"\0\x0f\xff\xffmoov" * depth + leaf
+
+
+# ------------------------------------------------------------------------------------------- fixed headers
+def tta_impl(f):
+    from mutagen.trueaudio import TrueAudioInfo
+    return TrueAudioInfo(f, 0)
+
+
+def tta_canon(i, data):
+    return (i.sample_rate, fh(i.length))
+
+
+def tta_expect(l, data):
+    rate, samples = l
+    return (rate, fh(float(samples) / rate if rate != 0 else 0.0))
+
+
+def mac_impl(f):
+    from mutagen.monkeysaudio import MonkeysAudioInfo
+    return MonkeysAudioInfo(f)
+
+
+def mac_canon(i, data):
+    return (fh(i.version), i.channels, i.sample_rate, i.bits_per_sample, fh(i.length))
+
+
+def mac_expect(l, data):
+    version, ch, rate, bits, blocks = l
+    return (fh(version / 1000.0), ch, rate, bits, fh(float(blocks) / rate if rate != 0 else 0.0))
+
+
+def ofr_impl(f):
+    from mutagen.optimfrog import OptimFROGInfo
+    return OptimFROGInfo(f)
+
+
+def ofr_canon(i, data):
+    return (i.channels, i.sample_rate, i.bits_per_sample, fh(i.length), i.encoder_info)
+
+
+def ofr_expect(l, data):
+    from mutagen.optimfrog import SAMPLE_TYPE_BITS
+    channels, rate, sample_type, total, enc = l
+    length = float(total) / (channels * rate) if rate else 0.0
+    if enc >= 0:
+        v = str((enc >> 4) + 4500)
+        info = "%s.%s" % (v[0], v[1:])
+    else:
+        info = ""
+    return (channels, rate, SAMPLE_TYPE_BITS.get(sample_type), fh(length), info)
+
+
+def hdr_sweep(names, n):
+    def sweep(samples):
+        for name in names:
+            s = samples[name][:n + 40]
+            yield from field_sweep(s, range(0, n))
+            yield from truncations(s)
+    return sweep
+
+
+# ------------------------------------------------------------------------------------------- ID3 header
+def id3h_impl(f):
+    from mutagen.id3._tags import ID3Header
+    h = ID3Header(f)
+    return h, f.tell()
+
+
+def id3h_canon(r, data):
+    h, pos = r
+    return (h.version[1], h.version[2], h._flags, h.size, len(h._extdata) if hasattr(h, "_extdata") else -1, pos)
+
+
+def id3h_expect(l, data):
+    return tuple(l)
+
+
+def id3h_sweep(samples):
+    for name in ("id3v24_extended_header.id3", "id3v23_unsynch.id3", "id3v22-test.mp3", "silence-44-s.mp3"):
+        s = samples[name][:300]
+        yield from field_sweep(s, range(0, 24))
+        yield from truncations(s, 60)
+    body = b"TIT2\0\0\0\x05\0\0\0abcd" + b"\0" * 40
+    for vmaj in (0, 1, 2, 3, 4, 5, 255):
+        for flags in (0x00, 0x40, 0x41, 0x50, 0x60, 0x80, 0xC0, 0xCF, 0xE0, 0xFF):
+            for ext in (b"", b"\0\0\0", b"\0\0\0\0", b"\0\0\0\x03", b"\0\0\0\x04", b"\0\0\0\x06", b"\0\0\0\x0a", b"\0\0\0\x7f", b"\0\0\0\x80", b"\0\0\1\0",
+                        b"\x7f\x7f\x7f\x7f", b"\xff\xff\xff\xff", b"TIT2", b"TPE1", b"TT2\0", b"XXXX", b"TIT\xb2", b"APIC"):
+                yield b"ID3" + bytes([vmaj, 0, flags]) + b"\0\0\0\x40" + ext + body
+
+
 # ------------------------------------------------------------------------------------------- registry
 LOADERS = {
     "Musepack": dict(impl=mpc_impl, canon=mpc_canon, expect=mpc_expect, sweep=mpc_sweep,
@@ -392,7 +600,7 @@ LOADERS = {
     "WavPack": dict(impl=wv_impl, canon=wv_canon, expect=wv_expect, sweep=wv_sweep, coq=("Parse_wavpack", "wavpack_load", "wv_info_list"),
                     own=lambda n: n.endswith(".wv") or n == "synth5",
                     mirrors="wavpack._WavPackHeader.from_fileobj + WavPackInfo.__init__ (RATES index guard, block walk)"),
-    "SMF": dict(impl=smf_impl, canon=smf_canon, expect=smf_expect, sweep=smf_sweep, coq=("Parse_smf", "smf_load", "smf_info_list"), max_len=2048,
+    "SMF": dict(seeds=SMF_SEEDS, impl=smf_impl, canon=smf_canon, expect=smf_expect, sweep=smf_sweep, coq=("Parse_smf", "smf_load", "smf_info_list"), max_len=2048,
                 own=lambda n: n.endswith(".mid") or n == "synth2",
                 mirrors="smf._var_int, _read_track, _read_midi_length, SMF.load (IOError mapping)"),
     "VComment": dict(impl=vc_impl, canon=vc_canon, expect=vc_expect, sweep=vc_sweep, coq=("Parse_vcomment", "vcomment_load", "vc_info_list"),
@@ -406,4 +614,28 @@ LOADERS = {
                       own=lambda n: n.endswith((".apev2", ".mpc", ".ape", ".wv", ".tak", ".ofr", ".ofs")) or n in ("apev2-lyricsv2.mp3", "audacious-trailing-id32-apev2.mp3"),
                       cut="tail", max_len=6000,
                       mirrors="apev2._APEv2Data.__init__ (__find_metadata incl. ID3v1/Lyrics3v2 detection and int(), __fill_missing, __fix_brokenness)"),
+    "MP4Atoms": dict(impl=mp4_impl, canon=mp4_canon, expect=mp4_expect, sweep=mp4_sweep, coq=("Parse_mp4", "mp4_atoms_raw", "mp4_flat_list"),
+                     own=lambda n: n.endswith((".m4a", ".mp4", ".m4b", ".3g2")), allowed=("AtomError",), rename={"AssertionError": "AtomError"}, max_len=4096,
+                     mirrors="mp4._atom.Atom.__init__ + Atoms.__init__ (AtomError, not a MutagenError, is mapped by MP4.load: theorem "
+                             "C04_MP4_total is about the mapped loader)"),
+    "TrueAudio": dict(impl=tta_impl, canon=tta_canon, expect=tta_expect, sweep=hdr_sweep(["empty.tta"], 18), coq=("Parse_headers", "trueaudio_load", "hdr_id"),
+                      own=lambda n: n.endswith(".tta"), max_len=256, mirrors="trueaudio.TrueAudioInfo.__init__(fileobj, offset=0)"),
+    "MonkeysAudio": dict(impl=mac_impl, canon=mac_canon, expect=mac_expect, sweep=hdr_sweep(["mac-399.ape", "mac-396.ape", "mac-390-hdr.ape"], 76),
+                         coq=("Parse_headers", "monkeysaudio_load", "hdr_id"), own=lambda n: n.endswith(".ape"), max_len=256,
+                         mirrors="monkeysaudio.MonkeysAudioInfo.__init__"),
+    "OptimFROG": dict(impl=ofr_impl, canon=ofr_canon, expect=ofr_expect, sweep=hdr_sweep(["empty.ofr", "empty.ofs", "silence-2s-44100-16.ofr"], 76),
+                      coq=("Parse_headers", "optimfrog_load", "hdr_id"), own=lambda n: n.endswith((".ofr", ".ofs")), max_len=256,
+                      mirrors="optimfrog.OptimFROGInfo.__init__"),
+    "ID3Header": dict(impl=id3h_impl, canon=id3h_canon, expect=id3h_expect, sweep=id3h_sweep, coq=("Parse_id3", "id3header_load", "id3h_id"),
+                      own=lambda n: n.endswith((".id3", ".mp3")) or n == "synth4", max_len=1024,
+                      mirrors="id3._tags.ID3Header.__init__ (incl. extended header and read_full)"),
+    "OggOpusInfo": dict(impl=ogo_impl, canon=ogo_canon, expect=ogv_expect, sweep=ogg_codec_sweep("example.opus", OPUS_ID),
+                        coq=("Parse_ogg", "oggopus_info_load", "ogg_id"), own=lambda n: n.endswith(".opus") or n == "synth1", allowed=("EOFError",), max_len=3000,
+                        mirrors="ogg.OggPage.__init__ + oggopus.OggOpusInfo.__init__ (EOFError mapped by OggFileType.load)"),
+    "OggSpeexInfo": dict(impl=ogs_impl, canon=ogs_canon, expect=ogv_expect, sweep=ogg_codec_sweep("empty.spx", SPEEX_ID),
+                         coq=("Parse_ogg", "oggspeex_info_load", "ogg_id"), own=lambda n: n.endswith(".spx") or n == "synth1", allowed=("EOFError",), max_len=3000,
+                         mirrors="ogg.OggPage.__init__ + oggspeex.OggSpeexInfo.__init__ (EOFError mapped by OggFileType.load)"),
+    "OggTheoraInfo": dict(impl=ogt_impl, canon=ogt_canon, expect=ogt_expect, sweep=ogg_codec_sweep("sample.oggtheora", THEORA_ID),
+                          coq=("Parse_ogg", "oggtheora_info_load", "ogg_id"), own=lambda n: n.endswith(".oggtheora") or n == "synth1", allowed=("EOFError",), max_len=3000,
+                          mirrors="ogg.OggPage.__init__ + oggtheora.OggTheoraInfo.__init__ (EOFError mapped by OggFileType.load)"),
 }
